@@ -15,11 +15,21 @@ open KG KG.Model.Forward KG.Spec.Forward KG.Lemmas.Forward
 
 /-! ## request: path -/
 
-/-- Valid escaped paths are forwarded byte for byte (`%2F`, `%25`, `%20`, `//`, `;`, `+`, non-UTF-8 escapes, lower-case
-    hex, escaped unreserved bytes … all included). -/
-theorem c04_path_exact (p P : Str) (hp : hasPrefixSlash p = true) (hv : validEncoded p = true)
+/-- **FULL statement, every path the server accepts (no validity hypothesis; since 85b204e):** the path the transport writes
+    is the client's escaped path with EXACTLY the bytes net/url rejects in `RawPath` (`"`, `{`, `|`, `<`, raw UTF-8, …)
+    percent-encoded; every other byte and every escape the client wrote (`%2F`, `%2f`, `%25`, `%20`, `%41`, `//`, `;`, `+`,
+    non-UTF-8 escapes, lower-case hex …) is forwarded as it is. -/
+theorem c04_path_exact (p P : Str) (hp : hasPrefixSlash p = true) (h : unescape .path p = some P) :
+    pathPipeline p = some (escapeInvalidPathBytes p) :=
+  pathPipeline_exact p P hp h
+
+/-- … so a valid RFC 3986 path (only pchars, `/` and percent escapes) is forwarded byte for byte -/
+theorem c04_path_exact_valid (p P : Str) (hp : hasPrefixSlash p = true) (hv : validEncoded p = true)
     (h : unescape .path p = some P) : pathPipeline p = some p :=
   pathPipeline_valid p P hp hv h
+
+/-- the bytes `escapeInvalidPathBytes` leaves alone (regenerated from the source) are exactly those net/url accepts -/
+theorem c04_escape_table (c : UInt8) : pathByteValid c = validEncodedByte c := pathByteValid_eq c
 
 /-- Every accepted path, valid or not, reaches the upstream as a path that decodes to the same bytes. -/
 theorem c04_path_decoded (p P : Str) (hp : hasPrefixSlash p = true) (h : unescape .path p = some P) :
@@ -27,91 +37,32 @@ theorem c04_path_decoded (p P : Str) (hp : hasPrefixSlash p = true) (h : unescap
   let ⟨out, h1, h2, _⟩ := pathPipeline_decoded p P hp h
   ⟨out, h1, h2⟩
 
-/-- the judges hold of the model's output on valid paths -/
-theorem c04_path_judges_valid (p P : Str) (hp : hasPrefixSlash p = true) (hv : validEncoded p = true)
-    (h : unescape .path p = some P) :
-    ∃ out, pathPipeline p = some out ∧ pathExact p out = true ∧ pathDecoded p out = true ∧ pathNorm p out = true :=
-  ⟨p, c04_path_exact p P hp hv h, by simp [pathExact], by simp [pathDecoded], by simp [pathNorm]⟩
-
-/-- FULL statement (finding C04-invalid-raw-byte-reencoded): every accepted path reaches the upstream as the same
-    path up to RFC 3986 normalisation (escapes of reserved bytes kept). -/
+/-- **every accepted path reaches the upstream as the same path up to RFC 3986 normalisation** (escapes of reserved bytes
+    kept: `%2F` never becomes `/`). This was the FULL statement `PathFidelityFull` that finding
+    C04-invalid-raw-byte-reencoded refuted on the tree before 85b204e (`/%2F"` ↦ `//%22`); it now holds. -/
 def PathFidelityFull : Prop :=
   ∀ p P out, hasPrefixSlash p = true → unescape .path p = some P → pathPipeline p = some out → rfcNorm out = rfcNorm p
 
-/-- … it is false of the code: `/%2F"` (a path with an escaped slash and a byte net/url does not accept raw) is
-    forwarded as `//%22`. -/
-theorem c04_path_full_false : ¬ PathFidelityFull := by
-  intro h
-  have := h [47, 37, 50, 70, 34] [47, 47, 34] [47, 47, 37, 50, 50] (by decide) (by decide) (by decide)
-  revert this
-  decide
-
-/-- partial, with the explicit decidable hypothesis `validEncoded p` (the escaped path holds only bytes net/url
-    accepts in `RawPath`): the statement of `PathFidelityFull` holds, in the strongest form `out = p` -/
-theorem c04_path_fidelity_partial (p P out : Str) (hp : hasPrefixSlash p = true) (hv : validEncoded p = true)
-    (h : unescape .path p = some P) (ho : pathPipeline p = some out) : out = p ∧ rfcNorm out = rfcNorm p := by
-  have := c04_path_exact p P hp hv h
-  rw [this] at ho
+theorem c04_path_full : PathFidelityFull := by
+  intro p P out hp h ho
+  rw [c04_path_exact p P hp h] at ho
   injection ho with ho
-  subst ho
-  exact ⟨rfl, rfl⟩
+  rw [← ho]
+  exact rfcNorm_escapeInvalid p P h
 
-/-- outside the hypothesis the model does exactly one thing: it forwards net/url's re-encoding of the decoded path
-    (the shape the harness accepts as the known finding — anything else is reported) -/
-theorem c04_path_invalid_shape (p P : Str) (hp : hasPrefixSlash p = true) (hv : validEncoded p = false)
-    (h : unescape .path p = some P) : pathPipeline p = some (escape .path P) := by
-  have hP := unescape_prefixSlash p P hp h
-  have hne := ne_nil_of_prefixSlash hp
-  have hPs : P ≠ kStar := by intro hs; rw [hs, kStar_noSlash] at hP; cases hP
-  -- EscapedPath of the parsed URL falls back to escape(Path)
-  have hne' : p ≠ escape .path P := by
-    intro he
-    -- escape output is always valid, p is not
-    have : validEncoded (escape .path P) = true := by
-      unfold validEncoded
-      rw [List.all_eq_true]
-      intro b hb
-      clear he h hP hPs
-      induction P with
-      | nil => simp [escape] at hb
-      | cons c s ih =>
-        unfold escape at hb
-        by_cases hc : shouldEscape c .path = true
-        · simp only [hc, if_true, show ¬ (c = 32 ∧ Mode.path = Mode.query) by simp, if_false, List.mem_cons] at hb
-          rcases hb with hb | hb | hb | hb
-          · subst hb; decide
-          · subst hb; exact (upperhex_valid c).1
-          · subst hb; exact (upperhex_valid c).2
-          · exact ih hb
-        · have hc' : shouldEscape c .path = false := by simpa using hc
-          simp only [hc', Bool.false_eq_true, if_false, List.mem_cons] at hb
-          rcases hb with hb | hb
-          · subst hb; unfold validEncodedByte; simp [hc']
-          · exact ih hb
-    rw [← he, hv] at this; cases this
-  have he0 : escapedPath ⟨P, if p = escape .path P then [] else p⟩ = escape .path P := by
-    simp only [if_neg hne']
-    unfold escapedPath
-    simp [hv, hPs]
-  have hesc : hasPrefixSlash (escape .path P) = true := escape_prefixSlash P hP
-  unfold pathPipeline
-  rw [setPath_path p P h]
-  simp only
-  have hls : locationStringPath ⟨P, if p = escape .path P then [] else p⟩ = escape .path P := by
-    unfold locationStringPath; simp only [he0]; simp [hesc]
-  rw [hls, setPath_path _ P (unescape_escape .path P)]
-  simp only [if_true]
-  have hcond : ¬ (¬ hasSuffixSlash P = true ∧ hasSuffixSlash P = true) := fun hc => hc.1 hc.2
-  simp only [hcond, if_false]
-  rcases requestURIPath_join ⟨P, []⟩ hP (Or.inl rfl) with hj | hj
-  · rw [hj]; unfold escapedPath; simp [hPs]
-  · rw [hj]
-    have : escapedPath ⟨P, []⟩ = escape .path P := by unfold escapedPath; simp [hPs]
-    rw [this]
-    unfold escapedPath
-    by_cases hv2 : (escape .path P ≠ [] ∧ validEncoded (escape .path P) = true ∧ unescape .path (escape .path P) = some P)
-    · simp [hv2]
-    · simp [hv2, hPs]
+/-- the three path judges hold of the model's output on EVERY accepted path -/
+theorem c04_path_judges (p P : Str) (hp : hasPrefixSlash p = true) (h : unescape .path p = some P) :
+    ∃ out, pathPipeline p = some out ∧ pathExact p out = true ∧ pathDecoded p out = true ∧ pathNorm p out = true := by
+  refine ⟨_, c04_path_exact p P hp h, ?_, ?_, ?_⟩
+  · unfold pathExact
+    by_cases hv : validEncoded p = true
+    · simp [escapeInvalid_id p hv]
+    · simp [hv]
+  · unfold pathDecoded; simp [unescape_escapeInvalid p P h, h]
+  · unfold pathNorm; simp [rfcNorm_escapeInvalid p P h]
+
+/-- the former witness of the finding: `/%2F"` now arrives as `/%2F%22` -/
+example : pathPipeline [47, 37, 50, 70, 34] = some [47, 37, 50, 70, 37, 50, 50] := by decide
 
 /-! ## request: query -/
 
@@ -298,11 +249,73 @@ theorem c04_request_method_host_body (r : Req) (u : UpReq) (h : forwardRequest r
   | none => simp [ht] at h
   | some t => simp [ht] at h; subst h; simp
 
-/-- **Request fidelity**: for every request with a valid slash-led path that is not an upgrade request (the test
-    `UpgradeAwareHandler.ServeHTTP` itself makes: no `Connection` value contains "upgrade"), the request
-    handed to the upstream has the same method, host, body, the same escaped path bytes, a query that parses to the
-    same multimap, and per header name the values `reqHdrExpected` prescribes. -/
+theorem cut_nosep (sep : UInt8) (a : Str) (h : sep ∉ a) : cut sep a = (a, []) := by
+  induction a with
+  | nil => simp [cut]
+  | cons c a ih =>
+    have hc : c ≠ sep := by intro hc; exact h (by simp [hc])
+    have ha : sep ∉ a := by intro ha; exact h (by simp [ha])
+    rw [cut_cons]; simp [hc, ih ha]
+
+/-- **Request fidelity**: for EVERY request with a slash-led path the gateway accepts (its escapes decode) that is
+    not an upgrade request (the test `UpgradeAwareHandler.ServeHTTP` itself makes: no `Connection` value contains
+    "upgrade"), the request handed to the upstream has the same method, host, body, the client's path bytes with
+    exactly the bytes no URL may carry percent-escaped (`escapeInvalidPathBytes`, the identity on a valid path —
+    see `c04_request_fidelity_valid`), a query that parses to the same multimap, and per header name the values
+    `reqHdrExpected` prescribes. -/
 theorem c04_request_fidelity (r : Req) (P : Str)
+    (hp : hasPrefixSlash (cut 63 r.target).1 = true)
+    (hd : unescape .path (cut 63 r.target).1 = some P)
+    (hnu : isUpgradeRequest (afterAuthentication (parseHeaders r.lines)) = false) :
+    ∃ u, forwardRequest r = some u ∧ u.method = r.method ∧ u.host = r.host ∧ u.body = r.body
+      ∧ (cut 63 u.target).1 = escapeInvalidPathBytes (cut 63 r.target).1
+      ∧ (∀ k, valuesOf k (parseQuery (cut 63 u.target).2) = valuesOf k (parseQuery (cut 63 r.target).2))
+      ∧ (∀ k, u.headers.values k = reqHdrExpected (afterAuthentication (parseHeaders r.lines)) r.remoteIP k) := by
+  have hpath := c04_path_exact _ P hp hd
+  have h63 : (63 : UInt8) ∉ escapeInvalidPathBytes (cut 63 r.target).1 := by
+    intro hm
+    have hv := escapeInvalid_valid (cut 63 r.target).1
+    have : validEncodedByte 63 = true := by
+      unfold validEncoded at hv
+      exact List.all_eq_true.mp hv 63 hm
+    revert this; decide
+  generalize escapeInvalidPathBytes (cut 63 r.target).1 = q at hpath h63
+  refine ⟨_, by unfold forwardRequest targetPipeline; rw [hpath], rfl, rfl, rfl, ?_, ?_, ?_⟩
+  · -- path
+    simp only
+    by_cases hq : encodeQuery (parseQuery (cut 63 r.target).2) = []
+    · simp only [hq, if_true]
+      rw [cut_nosep 63 q h63]
+    · simp only [hq, if_false]
+      have : q ++ [63] ++ encodeQuery (parseQuery (cut 63 r.target).2)
+          = q ++ 63 :: encodeQuery (parseQuery (cut 63 r.target).2) := by simp
+      rw [this, cut_append 63 _ _ h63]
+  · -- query
+    intro k
+    simp only
+    by_cases hq : encodeQuery (parseQuery (cut 63 r.target).2) = []
+    · simp only [hq, if_true]
+      rw [cut_nosep 63 q h63]
+      have := c04_query_multimap (cut 63 r.target).2 k
+      rw [hq] at this
+      exact this
+    · simp only [hq, if_false]
+      have : q ++ [63] ++ encodeQuery (parseQuery (cut 63 r.target).2)
+          = q ++ 63 :: encodeQuery (parseQuery (cut 63 r.target).2) := by simp
+      rw [this, cut_append 63 _ _ h63]
+      exact c04_query_multimap _ k
+  · intro k
+    exact c04_request_headers_nonupgrade _ _ (c04_parsed_headers_wf r.lines) hnu k
+
+/-- a request the model forwards had a path whose escapes decode (that is what "the gateway accepts the path" means) -/
+theorem c04_forwarded_decodes (r : Req) (u : UpReq) (h : forwardRequest r = some u) :
+    ∃ P, unescape .path (cut 63 r.target).1 = some P := by
+  cases hd : unescape .path (cut 63 r.target).1 with
+  | some P => exact ⟨P, rfl⟩
+  | none => simp [forwardRequest, targetPipeline, pathPipeline, setPath, hd] at h
+
+/-- … and on a valid path the escaped path bytes are the client's, byte for byte -/
+theorem c04_request_fidelity_valid (r : Req) (P : Str)
     (hp : hasPrefixSlash (cut 63 r.target).1 = true) (hv : validEncoded (cut 63 r.target).1 = true)
     (hd : unescape .path (cut 63 r.target).1 = some P)
     (hnu : isUpgradeRequest (afterAuthentication (parseHeaders r.lines)) = false) :
@@ -310,57 +323,9 @@ theorem c04_request_fidelity (r : Req) (P : Str)
       ∧ (cut 63 u.target).1 = (cut 63 r.target).1
       ∧ (∀ k, valuesOf k (parseQuery (cut 63 u.target).2) = valuesOf k (parseQuery (cut 63 r.target).2))
       ∧ (∀ k, u.headers.values k = reqHdrExpected (afterAuthentication (parseHeaders r.lines)) r.remoteIP k) := by
-  have hpath := c04_path_exact _ P hp hv hd
-  have h63 : (63 : UInt8) ∉ (cut 63 r.target).1 := by
-    intro hm
-    have : validEncodedByte 63 = true := by
-      unfold validEncoded at hv
-      exact List.all_eq_true.mp hv 63 hm
-    revert this; decide
-  refine ⟨_, by unfold forwardRequest targetPipeline; rw [hpath], rfl, rfl, rfl, ?_, ?_, ?_⟩
-  · -- path
-    simp only
-    by_cases hq : encodeQuery (parseQuery (cut 63 r.target).2) = []
-    · simp only [hq, if_true]
-      have := cut_append 63 (cut 63 r.target).1 [] h63
-      -- no '?' in the path: cut returns it whole
-      have hnone : cut 63 (cut 63 r.target).1 = ((cut 63 r.target).1, []) := by
-        generalize (cut 63 r.target).1 = a at h63
-        induction a with
-        | nil => simp [cut]
-        | cons c a ih =>
-          have hc : c ≠ 63 := by intro hc; exact h63 (by simp [hc])
-          have ha : (63 : UInt8) ∉ a := by intro ha; exact h63 (by simp [ha])
-          rw [cut_cons]; simp [hc, ih ha]
-      rw [hnone]
-    · simp only [hq, if_false]
-      have : (cut 63 r.target).1 ++ [63] ++ encodeQuery (parseQuery (cut 63 r.target).2)
-          = (cut 63 r.target).1 ++ 63 :: encodeQuery (parseQuery (cut 63 r.target).2) := by simp
-      rw [this, cut_append 63 _ _ h63]
-  · -- query
-    intro k
-    simp only
-    by_cases hq : encodeQuery (parseQuery (cut 63 r.target).2) = []
-    · simp only [hq, if_true]
-      have hnone : cut 63 (cut 63 r.target).1 = ((cut 63 r.target).1, []) := by
-        generalize (cut 63 r.target).1 = a at h63
-        induction a with
-        | nil => simp [cut]
-        | cons c a ih =>
-          have hc : c ≠ 63 := by intro hc; exact h63 (by simp [hc])
-          have ha : (63 : UInt8) ∉ a := by intro ha; exact h63 (by simp [ha])
-          rw [cut_cons]; simp [hc, ih ha]
-      rw [hnone]
-      have := c04_query_multimap (cut 63 r.target).2 k
-      rw [hq] at this
-      exact this
-    · simp only [hq, if_false]
-      have : (cut 63 r.target).1 ++ [63] ++ encodeQuery (parseQuery (cut 63 r.target).2)
-          = (cut 63 r.target).1 ++ 63 :: encodeQuery (parseQuery (cut 63 r.target).2) := by simp
-      rw [this, cut_append 63 _ _ h63]
-      exact c04_query_multimap _ k
-  · intro k
-    exact c04_request_headers_nonupgrade _ _ (c04_parsed_headers_wf r.lines) hnu k
+  have h := c04_request_fidelity r P hp hd hnu
+  rw [escapeInvalid_id _ hv] at h
+  exact h
 
 /-! ## response -/
 
@@ -507,33 +472,25 @@ theorem c04_row_impersonation_malformed (s : Scenario) (h0 : s.requestInfoOK = t
     ∃ a, serve s = .terminated a ∧ a.httpCode = 500 ∧ a.body.reason = kInternalError := by
   rw [c04_decision_table]; unfold table tableDispatch; simp [h0, h1, h2, h3, h4, h5]
 
-/-- FULL statement (finding C04-requestinfo-error-plain-500): every request the gateway terminates itself is answered
-    with an API `Status` — no outcome is a plain-text error. -/
-def TerminatedAlwaysStatus : Prop := ∀ s c, serve s ≠ .plainError c
-
-/-- … it is false of the code: when the RequestInfo resolver fails (`GET /api/v1/proxy`, `GET /api/v1/watch`),
-    `WithRequestInfo` answers with `responsewriters.InternalError`, which writes `text/plain`. -/
-theorem c04_terminated_full_false : ¬ TerminatedAlwaysStatus := by
-  intro h
-  exact h ⟨false, false, true, false, true, .none, true, true, [], true⟩ 500 (by decide)
-
-/-- partial, with the explicit decidable hypothesis that the resolver succeeds: no outcome is a plain-text error -/
-theorem c04_terminated_status_partial (s : Scenario) (c : Nat) (h : s.requestInfoOK = true) : serve s ≠ .plainError c := by
-  rw [c04_decision_table]; unfold table tableDispatch
-  cases hip : s.hostIsIP <;> cases hck : s.clusterKnown <;> cases hda : s.denyAll <;> cases hau : s.authOK
-    <;> cases him : s.imp <;> cases hpm : s.policyMatches <;> cases haq : s.acquireOK <;> cases hpo : s.popOK
-    <;> simp_all
-
-/-- **Every request (whose RequestInfo resolves) is forwarded, handed to the control plane (IP-literal Host), or
-    answered with a well-formed `Status`** — there is no other outcome (since e67e36e and 1375191: malformed
-    impersonation gets a Status, non-UTF-8 resources no longer drop the connection). -/
-theorem c04_every_outcome (s : Scenario) (h0 : s.requestInfoOK = true) :
+/-- **FULL statement (was refuted by finding C04-requestinfo-error-plain-500 before bd02b39): every request is forwarded,
+    handed to the control plane (IP-literal Host), or answered with a well-formed API `Status`** — there is no other outcome,
+    whether or not the RequestInfo resolves (since e67e36e, 1375191 and bd02b39: malformed impersonation and an unresolvable
+    RequestInfo get a Status, non-UTF-8 resources no longer drop the connection). -/
+theorem c04_terminated_status (s : Scenario) :
     serve s = .forward ∨ serve s = .notProxied ∨ ∃ a, serve s = .terminated a ∧ wellFormedAnswer a := by
   cases h : serve s with
   | forward => exact Or.inl rfl
   | notProxied => exact Or.inr (Or.inl rfl)
   | terminated a => exact Or.inr (Or.inr ⟨a, rfl, c04_terminated_wellformed s a h⟩)
-  | plainError c => exact absurd h (c04_terminated_status_partial s c h0)
+
+theorem c04_every_outcome (s : Scenario) :
+    serve s = .forward ∨ serve s = .notProxied ∨ ∃ a, serve s = .terminated a ∧ wellFormedAnswer a :=
+  c04_terminated_status s
+
+/-- the row: an unresolvable RequestInfo (`GET /api/v1/proxy`, `/api/v1/watch`) is a 500 `Status`, whatever else holds -/
+theorem c04_row_requestinfo_error (s : Scenario) (h0 : s.requestInfoOK = false) :
+    ∃ a, serve s = .terminated a ∧ a.httpCode = 500 ∧ a.retryAfter = none ∧ a.body.reason = kInternalError := by
+  rw [c04_decision_table]; unfold table; simp [h0]
 
 /-- only an IP-literal Host is handed to the control plane -/
 theorem c04_not_proxied_iff (s : Scenario) :
@@ -559,6 +516,15 @@ theorem c04_upstreamInfo_early_returns : skeletonOK Gen.C04.upstreamInfoSteps = 
     of every branch, the position of `TryAcquire`, the deferred `Release`, `Pop`) -/
 theorem c04_dispatcher_shape : Gen.C04.dispatcherSteps = expectedDispatcherSteps := rfl
 theorem c04_upstreamInfo_shape : Gen.C04.upstreamInfoSteps = expectedUpstreamInfoSteps := rfl
+
+/-- `WithRequestInfo` is the gateway's own filter: a resolver error is written with `ErrorNegotiated(NewInternalError)` and
+    followed by `return`; the chain hands it the serializer (third argument) -/
+theorem c04_requestInfo_shape :
+    Gen.C04.requestInfoSteps = expectedRequestInfoSteps ∧ skeletonOK Gen.C04.requestInfoSteps = true ∧
+    Gen.C04.requestInfoCallArgs = 3 := by decide
+
+/-- the dispatcher hands the proxy `escapeInvalidPathBytes(req.URL.RawPath)` -/
+theorem c04_location_rawpath : Gen.C04.locationRawPathExpr = "escapeInvalidPathBytes(req.URL.RawPath)" := by decide
 
 /-- end-to-end names the gateway must never treat as hop-by-hop -/
 theorem c04_hop_list_sound :
